@@ -3,6 +3,7 @@ package c08
 import (
 	"fmt"
 
+	"github.com/tetratelabs/wazero/verifharness/core"
 	"github.com/tetratelabs/wazero/verifharness/wenc"
 )
 
@@ -26,12 +27,16 @@ type guestSpec struct {
 	Styles []string // one host import per style: module "h", name = style
 	K      int
 	PV, RV [][]val // abstract vectors (funcref = target index)
+	Mixed  bool    // mixed import section (mixed.go) with a decoy type 0
+	Layout uint64  // PRNG seed of the import order
 }
 
 type gb struct {
 	m       *wenc.Module
 	targets [nTargets]uint32
 	tI32    uint32 // type index of () -> i32
+	tbl     uint32 // index of the guest's own table
+	glob    uint32 // index of the guest's first own global
 }
 
 func pushConst(c *wenc.Code, g *gb, t T, v val) {
@@ -135,8 +140,8 @@ func judge(c *wenc.Code, g *gb, l uint32, t T, e val, pos int, mask uint32) {
 			c.LocalGet(l).RefIsNull().Op(0x45)
 		} else {
 			c.LocalGet(l).RefIsNull().If(wenc.I32).I32Const(1).Else()
-			c.I32Const(0).LocalGet(l).TableSet(0)
-			c.I32Const(0).CallIndirect(g.tI32, 0).I32Const(int32(1000 + e.Lo - 1)).Op(0x47)
+			c.I32Const(0).LocalGet(l).TableSet(g.tbl)
+			c.I32Const(0).CallIndirect(g.tI32, g.tbl).I32Const(int32(1000 + e.Lo - 1)).Op(0x47)
 			c.End()
 		}
 		orBit(c, pri, mask)
@@ -196,8 +201,17 @@ func buildGuest(s *guestSpec) []byte {
 	m := &wenc.Module{}
 	g := &gb{m: m}
 	imp := map[string]uint32{}
-	for _, st := range s.Styles {
-		imp[st] = m.ImportFunc("h", st, s.P, s.R)
+	if s.Mixed {
+		dp, dr := decoyType(s.P, s.R)
+		m.AddType(dp, dr) // type 0
+		addMixedImports(m, core.NewRng(int64(s.Layout), 88), len(s.Styles), func(i int) {
+			imp[s.Styles[i]] = m.ImportFunc("h", s.Styles[i], s.P, s.R)
+		})
+		g.tbl, g.glob = nImportedTables, nImportedGlobals
+	} else {
+		for _, st := range s.Styles {
+			imp[st] = m.ImportFunc("h", st, s.P, s.R)
+		}
 	}
 	g.tI32 = m.AddType(nil, []T{wenc.I32})
 	m.Tables = []wenc.TableType{{Elem: wenc.FuncRef, Lim: wenc.Limits{Min: 2}}}
@@ -237,7 +251,7 @@ func buildGuest(s *guestSpec) []byte {
 			rl := func(j uint32) uint32 { return nE + j }
 			mask, ci, cf := nE+nR, nE+nR+1, nE+nR+2
 			c := &wenc.Code{}
-			c.GlobalGet(0).LocalSet(ci).GlobalGet(1).LocalSet(cf)
+			c.GlobalGet(g.glob).LocalSet(ci).GlobalGet(g.glob + 1).LocalSet(cf)
 			e := uint32(0)
 			for i, t := range s.P {
 				if t == wenc.ExternRef || t == wenc.FuncRef {
@@ -254,9 +268,9 @@ func buildGuest(s *guestSpec) []byte {
 			for j, t := range s.R {
 				judge(c, g, rl(uint32(j)), t, s.RV[k][j], j, mask)
 			}
-			c.LocalGet(ci).GlobalGet(0).Op(0x52)
+			c.LocalGet(ci).GlobalGet(g.glob).Op(0x52)
 			orBit(c, bitCanaryI, mask)
-			c.LocalGet(cf).Op(0xbd).GlobalGet(1).Op(0xbd, 0x52)
+			c.LocalGet(cf).Op(0xbd).GlobalGet(g.glob+1).Op(0xbd, 0x52)
 			orBit(c, bitCanaryF, mask)
 			for j := uint32(0); j < nR; j++ {
 				c.LocalGet(rl(j))
@@ -286,7 +300,7 @@ func buildGuest(s *guestSpec) []byte {
 		// callref: (funcref) -> i32: -1 for null, else the result of calling through it
 		c := &wenc.Code{}
 		c.LocalGet(0).RefIsNull().If(wenc.I32).I32Const(-1).Else()
-		c.I32Const(1).LocalGet(0).TableSet(0).I32Const(1).CallIndirect(g.tI32, 0).End().End()
+		c.I32Const(1).LocalGet(0).TableSet(g.tbl).I32Const(1).CallIndirect(g.tI32, g.tbl).End().End()
 		m.ExportFunc("callref", m.AddFunc([]T{wenc.FuncRef}, []T{wenc.I32}, nil, c.B))
 	}
 	if nP > 0 {
